@@ -53,6 +53,7 @@ Canon(s) ==
                  !.alloc = mapFn(@), !.pendPub = mapFn(@), !.pendNon = mapFn(@),
                  !.tmos = {[id |-> rk(r.id), at |-> r.at] : r \in @},
                  !.cur = IF @ = None THEN None ELSE rk(@),
+                 !.cap = IF s.buf = 0 THEN 0 ELSE @,          \* the capacity of a drained buffer is chosen afresh by the next call
                  !.nextOp = Cardinality(ids) + 1]
 View == <<Canon(es), env, mon>>
 
@@ -84,7 +85,7 @@ EvSnapshot(s, quiescent, unresolved) ==
 InitEnv == [open |-> FALSE, conns |-> 0, keys |-> 0, ins |-> 0, resolved |-> {},
             owed |-> <<>>,             \* [type, pid, n, ans]: answers the broker owes / has given on this connection
             connectSeen |-> FALSE, connectFlushed |-> FALSE, connackSent |-> FALSE, connectClean |-> FALSE,
-            hasSession |-> FALSE, allLegal |-> TRUE,
+            hasSession |-> FALSE, allLegal |-> TRUE, haltSteps |-> 0,
             lastIn |-> [q1 |-> 0, q2 |-> 0], nextIn |-> 1, pubrecSeen |-> {}, aliasBound |-> FALSE, tamIn |-> 0]
 
 OweFor(e) == CASE e.type = "CONNECT" -> <<[type |-> "CONNACK", pid |-> 0, n |-> 0, ans |-> FALSE]>>
@@ -124,7 +125,7 @@ Commit(r, pre, post, env2, decision) ==
     LET all == pre \o Ordered(r.evs) \o post
         env3 == BrokerSees(env2, r.evs)
     IN /\ es' = r.s
-       /\ env' = env3
+       /\ env' = [env3 EXCEPT !.haltSteps = IF es.st = "Halted" THEN 1 ELSE 0]
        /\ mon' = [n \in Which |-> M!MonFold(n, mon[n], all)]
        /\ last' = [res |-> r.res, evs |-> all]
        /\ hist' = Append(hist, decision)
@@ -295,7 +296,10 @@ Other(what) ==
                 /\ env.pubrecSeen # {}
                 /\ LET id == MinOf(env.pubrecSeen)
                    IN Feed([Blank EXCEPT !.type = "PUBREL", !.pid = id], env.connackSent, [env EXCEPT !.pubrecSeen = @ \ {id}], [a |-> "InPubrel", pid |-> -1])
-         [] what = "InPubrelUnknown" -> Feed([Blank EXCEPT !.type = "PUBREL", !.pid = PidMax], FALSE, env, [a |-> "InPubrel", pid |-> -3])
+         [] what = "InPubrelUnknown" ->
+                \* answered with a PUBCOMP each time: counted as inbound traffic so that the instance stays finite
+                /\ env.ins < MaxIn
+                /\ Feed([Blank EXCEPT !.type = "PUBREL", !.pid = PidMax], FALSE, [env EXCEPT !.ins = @ + 1], [a |-> "InPubrel", pid |-> -3])
          [] what = "Garbage" ->
                 LET r == RecvGarbage(es, Now)
                     p == [Blank EXCEPT !.type = "GARBAGE"]
@@ -322,19 +326,24 @@ OpenStep ==
                    ELSE env
        IN Commit(r, <<OpenEv(r)>>, <<>>, env2, [a |-> "Open", deadline |-> (Deadline * 1000) \div TPS])
 
+\* Once the engine has halted (an entry point returned an error) every further event is refused until the
+\* connection is closed.  One step of every kind is explored from the halted state (that is what "accepts no
+\* more traffic" quantifies over); after it only Close / Open / Reset continue the behaviour.
+Live == es.st # "Halted" \/ env.haltSteps < 1
+
 Next ==
-    \/ \E a \in SubmitSet : Submit(a)
-    \/ UserDisc
+    \/ Live /\ \E a \in SubmitSet : Submit(a)
+    \/ Live /\ UserDisc
     \/ OpenStep
     \/ Close
-    \/ \E cap \in Caps : Svc(cap)
-    \/ WriteDone
-    \/ Tick
+    \/ Live /\ \E cap \in Caps : Svc(cap)
+    \/ Live /\ WriteDone
+    \/ Live /\ Tick
     \/ DoReset
-    \/ \E c \in ConnackSet : Connack(c)
-    \/ \E w \in AckWhich, h \in AckHows : Ack(w, h)
-    \/ \E ip \in InPubSet : InPub(ip)
-    \/ \E o \in Others : Other(o)
+    \/ Live /\ \E c \in ConnackSet : Connack(c)
+    \/ Live /\ \E w \in AckWhich, h \in AckHows : Ack(w, h)
+    \/ Live /\ \E ip \in InPubSet : InPub(ip)
+    \/ Live /\ \E o \in Others : Other(o)
 
 Spec == Init /\ [][Next]_vars
 
